@@ -28,7 +28,8 @@ from antlr4 import *
 from .aggregator import DocumentationAggregator
 from cminx import Settings
 from .documentation_types import DocumentationType, ModuleDocumentation
-from .parser import ParserErrorListener
+from .exceptions import CMakeSyntaxException
+from .parser import ParserErrorListener, LexerErrorListener
 from .parser.CMakeLexer import CMakeLexer
 from .parser.CMakeParser import CMakeParser
 from .rstwriter import RSTWriter, Directive
@@ -80,6 +81,9 @@ class Documenter(object):
         self.lexer: CMakeLexer = CMakeLexer(self.input_stream)
         """The lexer used to generate the token stream."""
 
+        # Characters that cannot be tokenized are errors, not something to skip
+        self.lexer.addErrorListener(LexerErrorListener())
+
         self.stream: TokenStream = CommonTokenStream(self.lexer)
         """The stream of tokens from the lexer, should be passed to the parser."""
 
@@ -111,7 +115,15 @@ class Documenter(object):
 
         # Parse and lex the file, then walk the tree and aggregate the
         # documented commands
-        self.walker.walk(self.aggregator, self.parser.cmake_file())
+        tree = self.parser.cmake_file()
+
+        # Exceptions raised by the error listener inside a nested rule are caught
+        # by the error recovery of the enclosing rule, so check the error count as well
+        num_errors = self.parser.getNumberOfSyntaxErrors()
+        if num_errors > 0:
+            raise CMakeSyntaxException(f"Found {num_errors} syntax error(s) while parsing", tree.start.line)
+
+        self.walker.walk(self.aggregator, tree)
 
         # All the documented commands are now stored in aggregator.documented,
         # each element is a namedtuple representing the type of documentation it is.
